@@ -18,7 +18,9 @@ from ..core import Unsupported, un
 
 
 # values the interpreter may look into / call: stubs built by the checker and plain standard-library values
-_OPEN = (types.SimpleNamespace, _dt.timedelta, _dt.datetime, _dt.date, _dt.time, _dt.tzinfo, dict)
+import re as _re
+
+_OPEN = (types.SimpleNamespace, _dt.timedelta, _dt.datetime, _dt.date, _dt.time, _dt.tzinfo, dict, _re.Pattern, _re.Match)
 
 
 class Stub(types.SimpleNamespace):
@@ -265,7 +267,13 @@ def ev(n: ast.AST, env: dict[str, Any], funcs: dict[str, ast.FunctionDef] | None
             if n.func.id == "type" and len(args) == 1 and isinstance(args[0], Obj):
                 return vars(args[0])["_ctor"]
             if n.func.id in _BUILTINS:
-                return _BUILTINS[n.func.id](*args, **kws)
+                try:
+                    return _BUILTINS[n.func.id](*args, **kws)
+                except (ValueError, OverflowError, ZeroDivisionError) as e:
+                    if all(isinstance(a, (str, int, float, bool, type(None))) for a in args):
+                        # what the analysed code itself would raise here (int('1,5')): an outcome, not a limit of the interpreter
+                        raise Raised(f"raise reached: {type(e).__name__}: {e}", type(e).__name__) from None
+                    raise
             if n.func.id in funcs and isinstance(funcs[n.func.id], ast.FunctionDef) and depth < 8:
                 return call(funcs[n.func.id], args, kws, funcs, depth + 1)
         if isinstance(n.func, ast.Call) or (isinstance(n.func, ast.Name) and callable(env.get(n.func.id)) and isinstance(env.get(n.func.id), types.FunctionType)):
